@@ -325,6 +325,8 @@ def main(tier, seed):
     r9.c17_lu_factor_layouts(rep, algopy, rng, tier)
     import r10
     r10.c17_returned_matrices_are_fresh(rep, algopy, rng, tier)
+    import r12
+    r12.c17_special_values(rep, algopy, rng, tier)
     return rep.finish()
 
 
